@@ -1,3 +1,29 @@
 //! verification hooks: envelope (guarded by cfg ordinals_ord_verif)
+//! Thin `pub` wrappers over crate-private items used by the C27/C28 harness.
 #![allow(unused_imports, dead_code)]
 use super::*;
+
+/// `InscriptionId::value`
+pub fn inscription_id_value(id: InscriptionId) -> Vec<u8> {
+  id.value()
+}
+
+/// `InscriptionId::from_value`
+pub fn inscription_id_from_value(value: &[u8]) -> Option<InscriptionId> {
+  InscriptionId::from_value(value)
+}
+
+/// `Properties::to_inline_cbor`
+pub fn properties_to_inline_cbor(properties: &Properties) -> Option<Vec<u8>> {
+  properties.to_inline_cbor()
+}
+
+/// `Properties::to_packed_cbor`
+pub fn properties_to_packed_cbor(properties: &Properties) -> Option<Vec<u8>> {
+  properties.to_packed_cbor()
+}
+
+/// `Properties::from_cbor`
+pub fn properties_from_cbor(cbor: &[u8]) -> Properties {
+  Properties::from_cbor(cbor)
+}
